@@ -367,6 +367,8 @@ def configs(tier):
     ns = (1, 2) if tier == "quick" else (1, 2, 3)
     for kind in ("nonrel", "rel"):
         for n in ns:
+            if kind == "rel" and n == 3:
+                continue  # sqrt(rho_i) generators for three channels: not decided within the limits
             out.append({"name": f"abstract:{kind}:n={n}", "level": "abstract", "kind": kind, "n": n, "timeout": 60 if n < 3 else 900})
             if kind == "rel" and n <= 2:
                 out.append({"name": f"abstract:rel:n={n}:complex-rho", "level": "abstract", "kind": kind, "n": n, "complex_rho": True, "timeout": 120})
@@ -376,7 +378,7 @@ def configs(tier):
         bws = [(0, "PhaseSpaceFactor"), (1, "UF"), (2, "PhaseSpaceFactorAbs")]
     else:
         nonrel = [(n, p) for n in (1, 2, 3) for p in (1, 2, 3)]
-        rel = [(n, p, L, "UF") for n in (1, 2, 3) for p in (1, 2, 3) for L in (0, 1, 2) if (n * p <= 4 or L <= 1)]
+        rel = [(n, p, L, "UF") for n in (1, 2) for p in (1, 2, 3) for L in (0, 1, 2) if (n * p <= 4 or L <= 1)]
         rel += [(n, p, L, ph) for ph in REAL_PHSP for (n, p, L) in ((1, 1, 0), (2, 2, 1), (1, 3, 2), (2, 1, 2), (1, 1, 2))]
         bws = [(L, ph) for L in range(3) for ph in (*REAL_PHSP, "UF")]
     for n, p in nonrel:
@@ -411,13 +413,13 @@ def main():
             dyn.relativistic_breit_wigner,
             dyn.relativistic_breit_wigner_with_ff,
         ],
-        bounds={"n_channels": "1..2 quick / 1..3 thorough", "n_poles": "1..3", "L": "0..2", "phase-space factors": "UF rhoX>0, PhaseSpaceFactor, ...Abs, ...Complex"},
+        bounds={"n_channels": "1..2 (non-relativistic: 1..3 in the thorough tier)", "n_poles": "1..3", "L": "0..2", "phase-space factors": "UF rhoX>0, PhaseSpaceFactor, ...Abs, ...Complex"},
         assumptions=[
             "uninterpreted phase-space factor rhoX(s,m1,m2): real and > 0 at every point where it is applied (needed for the sqrt(rho) the library takes)",
             "domain: s above every threshold, pole masses above every threshold, non-negative parameters as declared by the library's symbols, denominators non-zero",
             "K real (not necessarily symmetric) and P complex in the abstract obligations",
         ],
-        outside=["n_channels > 3, n_poles > 3, L > 2", "phase-space factors that are complex above threshold (S-wave Chew-Mandelstam, equal-mass)", "floating point"],
+        outside=["relativistic n_channels > 2, non-relativistic n_channels > 3, n_poles > 3, L > 2", "phase-space factors that are complex above threshold (S-wave Chew-Mandelstam, equal-mass)", "floating point"],
     )
 
 
